@@ -36,6 +36,9 @@ struct ClassicFam {
     return SK<K>::deserialize(bytes.data(), bytes.size(), serde<T>(), cmp);
   }
 
+  static const bool self_merge_ok = true;
+  // levels are the bits of n / 2k: an empty intermediate level is a zero bit below the top bit
+  static bool convert_gap(uint32_t k, uint64_t n) { const uint64_t bp = n / (2ULL * k); return bp != 0 && (bp & (bp + 1)) != 0; }
   static uint64_t exact_cap(uint32_t k) { return 2ULL * k - 1; }
 
   // stated: base buffer of n mod 2k items plus one k-item level per set bit of n / 2k
